@@ -27,15 +27,18 @@ LITS = ['.5', '5.', '1_000', '2.5e-1', '1e+16', '0o17', '0b101', '+1', "'v'", '"
 KEYS = ['a', 'b', 'c']
 
 
-def rand_value(rng, depth):
+KEYSETS = [KEYS, KEYS, KEYS, ['a', 'auth_token', 'password'], ['secret_ref', 'b', 'token'], ['user', 'password', 'x_auth_token']]
+
+
+def rand_value(rng, depth, keys=KEYS):
     r = rng.random()
     if depth <= 0 or r < 0.3:
         return rng.choice(SCALARS)
     if r < 0.6:
-        return {k: rand_value(rng, depth - 1) for k in rng.sample(KEYS, rng.randint(1, 3))}
+        return {k: rand_value(rng, depth - 1, keys) for k in rng.sample(keys, rng.randint(1, 3))}
     if r < 0.9:
-        return [rand_value(rng, depth - 1) for _ in range(rng.randint(0, 3))]
-    return [[rand_value(rng, depth - 2) for _ in range(rng.randint(1, 2))] for _ in range(rng.randint(1, 2))]
+        return [rand_value(rng, depth - 1, keys) for _ in range(rng.randint(0, 3))]
+    return [[rand_value(rng, depth - 2, keys) for _ in range(rng.randint(1, 2))] for _ in range(rng.randint(1, 2))]
 
 
 def reach_values(v, segs, acc):
@@ -69,7 +72,8 @@ def run(ctx):
     cases = []
     n_corner = 0
     for i in range(1500 if q else 40000):
-        creds = {k: rand_value(rng, rng.randint(0, 4)) for k in rng.sample(KEYS, rng.randint(1, 3))}
+        keys = rng.choice(KEYSETS)
+        creds = {k: rand_value(rng, rng.randint(0, 4), keys) for k in rng.sample(keys, rng.randint(1, 3))}
         creds['roles'] = ['r']
         target = {}
         if rng.random() < 0.3:
@@ -77,7 +81,7 @@ def run(ctx):
             isl, sform = ev.is_literal(lhs)
             want_val = sform if (isl and rng.random() < 0.6) else str(rng.choice(SCALARS))
         else:
-            lhs = '.'.join(rng.choice(KEYS) for _ in range(rng.randint(1, 4)))
+            lhs = '.'.join(rng.choice(keys) for _ in range(rng.randint(1, 4)))
             reached = []
             reach_values(creds, lhs.split('.'), reached)
             if reached and rng.random() < 0.75:
@@ -90,7 +94,7 @@ def run(ctx):
         if plain and mode < 0.5:
             parts = [want_val]
         elif mode < 0.9:
-            key = rng.choice(['t', 'project_id', 'x.y'])
+            key = rng.choice(['t', 'project_id', 'x.y', 'share_token', 'password'])
             parts = [ev.ph(key)]
             # the target value itself (any JSON type): compared by string form
             tv = want_val
@@ -118,8 +122,28 @@ def run(ctx):
             rules = [('p:x', ev.And(ev.role('r'), leaf))]
         else:
             rules = [('p:x', ev.rule('g')), ('g', leaf)]
+        # the library's debug logging (a masked dump of credentials and target on every call) is on
+        # for some calls: attribute names that look like secrets are part of the key alphabet
+        ec.set_debug(rng.random() < 0.35)
         c = ec.enforce_case(rules, {'by': 'name', 'name': 'p:x'}, target, creds, dflt=('opt', None), want='c05')
         cases.append(c)
+    ec.set_debug(False)
+    # check objects are shared by every thread that uses the enforcer: a call suspended inside the
+    # evaluation decides on its own target and credentials whatever another call does meanwhile
+    n_conc = 0
+    for leaf, a, b in [
+            (ev.generic('project_id', ev.ph('project_id')), ({'project_id': 'p1'}, {'project_id': 'p1', 'roles': []}), ({'project_id': 'p2'}, {'project_id': 'p2', 'roles': []})),
+            (ev.generic('project_id', ev.ph('project_id')), ({'project_id': 'p1'}, {'project_id': 'p2', 'roles': []}), ({'project_id': 'p2'}, {'project_id': 'p2', 'roles': []})),
+            (ev.generic('user.groups.name', ev.ph('group')), ({'group': 'g1'}, {'user': {'groups': [{'name': 'g1'}, {'name': 'g3'}]}, 'roles': []}),
+             ({'group': 'g2'}, {'user': {'groups': [{'name': 'g2'}]}, 'roles': []})),
+            (ev.generic("'lit'", ev.ph('t')), ({'t': 'lit'}, {'roles': []}), ({'t': 'other'}, {'roles': []})),
+            (ev.generic('a.b', 'x-', ev.ph('t')), ({'t': 'v'}, {'a': {'b': 'x-v'}, 'roles': []}), ({'t': 'w'}, {'a': {'b': 'x-w'}, 'roles': []}))]:
+        for nest in ('self', 'not'):
+            rules = [('p:x', leaf if nest == 'self' else ev.Not(leaf))]
+            cs = ec.interference_cases(rules, 'p:x', a, b, 'c05', rng, q)
+            n_conc += len(cs)
+            cases += cs
+    ctx.cover['concurrent_call_cases'] = n_conc
     bad = ec.judge(ctx, cases)
     for c in bad:
         ctx.violation('generic-check:' + ('raises:' + c['obs']['cls'] if c['obs']['o'] == 'raise' else 'decision'),
